@@ -1,7 +1,10 @@
 """C12 (number types) — Natural / Saturating<u64,u128> / F64 compute exactly; NaN / marker only where documented."""
 import json
 import os
+import random
 import vf
+import ddgen
+from checks import ddcommon
 
 META = {
     "title": "Model counting number types: the arbitrary-precision Natural (and Saturating<u64/u128>) compute exactly",
@@ -48,13 +51,274 @@ def handle_bad(ctx, binp, drv, cases, bad, profile):
             nfif=(kind != "prop"))
 
 
+# --------------------------------------------------------------------------
+# Stage 2: sat_count on real managers (generic DD harness h_dd + driver dd_main.ml)
+# --------------------------------------------------------------------------
+# The harness keeps ONE SatCountCache per number type for the whole case (type `nat_fresh` = a fresh
+# cache per query): every `SAT h<slot> <vars> <type>` below is a query on a reused cache.  The driver
+# computes the exact count from the value table of the handle (extracted interpreter on the lifted
+# snapshot) and compares: Natural exactly, Saturating<u64/u128> exactly while 2^vars is representable
+# and the marker otherwise (0 stays 0), F64 exactly below 2^53 and within 1e-9 relative above.
+# A SAT op is resolved at the next SNAP: handles are only created/dropped right after a SNAP, and a
+# SNAP precedes every VARS (ZBDD counts are taken with vars = number of variables).
+DD_TYPES = ["u64", "u128", "f64", "nat", "nat_fresh"]
+DD_KINDS = ["bdd", "bcdd", "zbdd"]
+
+
+def dd_vars(kind, n):
+    return [n] if kind == "zbdd" else [n, n + 1, n + 3, n + 70, 1100]
+
+
+def dd_case_all3(cid, kind, order, rng, sweeps):
+    """all 256 functions of three variables under one order: per number type sweeps over all
+    handles with a fixed `vars` (cache hits across handles), then interleaved vars/types/gc/reorder"""
+    ops = ["VARS 3"]
+    if list(order) != [0, 1, 2]:
+        ops.append("ORDER " + " ".join(map(str, order)))
+    for i in range(256):
+        ops.append(f"{rng.choice(['TT', 'TTI'])} h{i} 3 {i:x}")
+    ops.append("SNAP")
+    vs = dd_vars(kind, 3)
+    for ty in DD_TYPES:
+        chosen = [vs[0]] + rng.sample(vs[1:], min(sweeps, len(vs) - 1))
+        rng.shuffle(chosen)
+        for v in chosen:
+            hs = list(range(256))
+            rng.shuffle(hs)
+            for i in hs:
+                ops.append(f"SAT h{i} {v} {ty}")
+            if rng.random() < 0.3:
+                ops.append("GC")
+    ops.append("SNAP")
+    for _ in range(700):
+        r = rng.random()
+        if r < 0.03:
+            ops.append("GC")
+        elif r < 0.05:
+            p = list(range(3))
+            rng.shuffle(p)
+            ops.append("ORDER " + " ".join(map(str, p)))
+        else:
+            ops.append(f"SAT h{rng.randrange(256)} {rng.choice(vs)} {rng.choice(DD_TYPES)}")
+    ops.append("SNAP")
+    return (ddgen.header(cid, kind, cap=1 << 14, cache=1 << 10), ops)
+
+
+class _Pool:
+    """handles with shared sub-DAGs: base functions over at most 7 variables and combinations
+    (a combination keeps its operands as sub-graphs; the operands stay referenced by their handles,
+    so that their root nodes have more than one incoming edge and are cached by sat_count)"""
+
+    def __init__(self, rng, nv, ops):
+        self.rng, self.nv, self.ops = rng, nv, ops
+        self.k = 0
+        self.live = []
+
+    def fresh(self):
+        self.k += 1
+        return self.k - 1
+
+    def base(self):
+        rng, nv = self.rng, self.nv
+        d = self.fresh()
+        b = min(nv, 7)
+        self.ops.append(f"{rng.choice(['TT', 'TTI'])} h{d} {b} {ddgen.rand_tt(rng, b):x}")
+        self.live.append(d)
+        return d
+
+    def var(self):
+        d = self.fresh()
+        self.ops.append(f"{self.rng.choice(['VAR', 'NVAR'])} h{d} {self.rng.randrange(self.nv)}")
+        self.live.append(d)
+        return d
+
+    def comb(self):
+        rng = self.rng
+        d = self.fresh()
+        r = rng.random()
+        if r < 0.6:
+            self.ops.append(f"{rng.choice(ddgen.BIN_OPS)} h{d} h{rng.choice(self.live)} h{rng.choice(self.live)}")
+        elif r < 0.9:
+            self.ops.append(f"ITE h{d} h{rng.choice(self.live)} h{rng.choice(self.live)} h{rng.choice(self.live)}")
+        else:
+            self.ops.append(f"NOT h{d} h{rng.choice(self.live)}")
+        self.live.append(d)
+        return d
+
+    def grow(self, nbase, nvar, ncomb):
+        for _ in range(nbase):
+            self.base()
+        for _ in range(nvar):
+            self.var()
+        for _ in range(ncomb):
+            self.comb()
+
+    def drop_some(self, keep=3):
+        """(after a SNAP) drop about half of the handles"""
+        rng = self.rng
+        rng.shuffle(self.live)
+        cut = max(keep, len(self.live) // 2)
+        for d in self.live[cut:]:
+            self.ops.append(f"{rng.choice(['DROP', 'DROP', 'DROPT'])} h{d}")
+        self.live = self.live[:cut]
+
+
+def dd_case_reuse(cid, kind, rng, rounds):
+    """cache reuse histories on one cache object per type: sat_count(f, a); an invalidating event;
+    exactly one sat_count(g, b); sat_count(h, a) again on handles sharing nodes with g"""
+    nv = rng.randrange(4, 11)
+    ops = [f"VARS {nv}"]
+    pool = _Pool(rng, nv, ops)
+    pool.grow(rng.randrange(2, 5), rng.randrange(1, 4), rng.randrange(4, 9))
+    ops.append("SNAP")
+    for _ in range(rounds):
+        ty = rng.choice(["u64", "u128", "f64", "nat", "nat", "nat"]) if rng.random() < 0.9 else "nat_fresh"
+        ev = rng.choice(["GC", "GC", "ORDER", "DROPGC", "DROPGC", "VARS", "GCVARS", "NONE", "NONE"])
+        add = rng.randrange(1, 3) if ev in ("VARS", "GCVARS") and pool.nv < 11 else 0
+        vs = dd_vars(kind, pool.nv + add)
+        a = rng.choice(vs)
+        b = rng.choice([v for v in vs if v != a] or vs) if rng.random() < 0.8 else a
+        if kind == "zbdd":
+            a = b = None          # always the current number of variables
+        cur = lambda x: pool.nv if x is None else x
+        # phase 1: queries with a
+        hs = list(pool.live)
+        rng.shuffle(hs)
+        for h in hs[: rng.randrange(1, len(hs) + 1)]:
+            ops.append(f"SAT h{h} {cur(a)} {ty}")
+        # the event
+        if ev == "GC":
+            ops.append("GC")
+        elif ev == "ORDER":
+            p = list(range(pool.nv))
+            rng.shuffle(p)
+            ops.append(f"{rng.choice(['ORDER', 'ORDERSEQ'])} " + " ".join(map(str, p)))
+        elif ev == "DROPGC":
+            # node ids are recycled: drop, collect, build other functions
+            ops.append("SNAP")
+            pool.drop_some()
+            ops.append("GC")
+            pool.grow(rng.randrange(0, 2), rng.randrange(0, 2), rng.randrange(3, 8))
+        elif ev in ("VARS", "GCVARS") and add:
+            ops.append("SNAP")
+            if ev == "GCVARS":
+                ops.append("GC")
+            ops.append(f"VARS {add}")
+            pool.nv += add
+            if rng.random() < 0.5:
+                pool.var()
+                pool.comb()
+        # phase 2: exactly one query with b
+        g = rng.choice(pool.live)
+        ops.append(f"SAT h{g} {cur(b)} {ty}")
+        # phase 3: a again, on g and on everything that shares nodes with it
+        hs = [g] + [h for h in pool.live if h != g]
+        if rng.random() < 0.5:
+            rng.shuffle(hs)
+        for h in hs:
+            ops.append(f"SAT h{h} {cur(a)} {ty}")
+        if rng.random() < 0.4:
+            # several alternations of the two values
+            for i in range(rng.randrange(3, 9)):
+                ops.append(f"SAT h{rng.choice(pool.live)} {cur(a) if i % 2 else cur(b)} {ty}")
+        ops.append("SNAP")
+        if len(pool.live) > 20:
+            pool.drop_some(keep=6)
+            ops.append("SNAP")
+    return (ddgen.header(cid, kind, cap=1 << 15, cache=rng.choice([16, 1 << 10])), ops)
+
+
+def dd_case_random(cid, kind, rng, length):
+    """random interleaving of queries (two or three `vars` values per case, all types), collections,
+    reorderings, handle turnover and added variables"""
+    nv = rng.randrange(4, 11)
+    ops = [f"VARS {nv}"]
+    pool = _Pool(rng, nv, ops)
+    pool.grow(rng.randrange(2, 4), rng.randrange(1, 3), rng.randrange(4, 10))
+    ops.append("SNAP")
+    pick_vs = lambda: rng.sample(dd_vars(kind, pool.nv), min(len(dd_vars(kind, pool.nv)), rng.randrange(2, 4)))
+    vs = pick_vs()
+    for _ in range(length):
+        r = rng.random()
+        if r < 0.80:
+            ops.append(f"SAT h{rng.choice(pool.live)} {rng.choice(vs)} {rng.choice(DD_TYPES)}")
+        elif r < 0.86:
+            ops.append("GC")
+        elif r < 0.89:
+            p = list(range(pool.nv))
+            rng.shuffle(p)
+            ops.append("ORDER " + " ".join(map(str, p)))
+        elif r < 0.94:
+            ops.append("SNAP")
+            if len(pool.live) > 6:
+                pool.drop_some()
+            if rng.random() < 0.7:
+                ops.append("GC")
+            pool.grow(0, rng.randrange(0, 2), rng.randrange(2, 6))
+        elif r < 0.97 and pool.nv < 11:
+            ops.append("SNAP")
+            k = rng.randrange(1, 3)
+            ops.append(f"VARS {k}")
+            pool.nv += k
+            vs = pick_vs()
+        else:
+            pool.comb()
+    ops.append("SNAP")
+    return (ddgen.header(cid, kind, cap=1 << 15, cache=rng.choice([16, 1 << 10])), ops)
+
+
+def gen_dd_cases(ctx):
+    rng = random.Random(ctx.seed * 104729 + 12)
+    thorough = ctx.tier == "thorough"
+    cases = []
+    for kind in DD_KINDS:
+        orders = ddgen.PERMS3 if thorough else [rng.choice(ddgen.PERMS3)]
+        for oi, order in enumerate(orders):
+            cases.append(dd_case_all3(f"a3-{kind}-{oi}", kind, order, rng, sweeps=4 if thorough else 2))
+        for i in range(600 if thorough else 40):
+            cases.append(dd_case_reuse(f"ru-{kind}-{i}", kind, rng, rounds=rng.randrange(4, 10)))
+        for i in range(300 if thorough else 24):
+            cases.append(dd_case_random(f"rn-{kind}-{i}", kind, rng, length=rng.randrange(80, 200)))
+    return cases
+
+
+DD_RULE = ("stage 2 (sat_count on real managers, kinds bdd/bcdd/zbdd): all 256 three-variable functions under a seed-chosen "
+           "order (thorough: all 6), swept per number type with a fixed vars and interleaved with other vars/types/gc/reorder; "
+           "cache-reuse histories on functions over 4..10 variables with shared sub-DAGs (one SatCountCache per number type "
+           "per case): sat_count(f,a); event in {gc, reorder, drop+gc+rebuild (node ids recycled), add_vars, gc+add_vars, none}; "
+           "exactly one sat_count(g,b); sat_count(h,a) on every handle sharing nodes with g; alternations of a and b; random "
+           "interleavings; vars in {n, n+1, n+3, n+70, 1100} (zbdd: n); types Saturating<u64>, Saturating<u128>, F64, Natural "
+           "(reused cache) and Natural with a fresh cache per query; every result compared with the exact count of the handle's "
+           "value table")
+
+
+def run_dd_stage(ctx):
+    cases = gen_dd_cases(ctx)
+    before = dict(ctx.stats)
+    samples = list(ctx.samples)
+    ok, bad = ddcommon.run_dd(ctx, ["C12"], cases, rule=DD_RULE, proofs=False, write_ev=False,
+                              nshards=16, max_reports=2)
+    dd_samples = ctx.samples
+    dd_distinct = ctx.stats.get("distinct_nontrivial", 0)
+    ctx.samples = samples
+    ctx.stats["distinct_nontrivial"] = before.get("distinct_nontrivial", 0)
+    if ctx.stats.get("unresolved", 0):
+        # a SAT op whose handle table was not available at the resolving snapshot was not checked
+        raise vf.CheckFailure(f"DD stage: {ctx.stats['unresolved']} operations could not be resolved by the driver")
+    return {"dd_cases": len(cases), "dd_cases_ok": ok, "dd_cases_bad": len(bad),
+            "dd_sat_queries_checked": int(ctx.stats.get("chk_C12", 0)),
+            "dd_distinct_nontrivial": dd_distinct}, dd_samples
+
+
 def load_corpus():
     corpus_dir = os.path.join(vf.ROOT, "corpus", "C12")
     corpus = []
     if os.path.isdir(corpus_dir):
         for fn in sorted(os.listdir(corpus_dir)):
             if fn.endswith(".case"):
-                corpus += vf.parse_cases(open(os.path.join(corpus_dir, fn)).read())
+                # (cases with a `kind=` header belong to the DD stage and are picked up by ddcommon.run_dd)
+                corpus += [(h, ops) for h, ops in vf.parse_cases(open(os.path.join(corpus_dir, fn)).read())
+                           if " kind=" not in h or h.split(" kind=")[1].split()[0] in ddcommon.NON_DD_KINDS]
     return corpus
 
 
@@ -81,12 +345,16 @@ def run(ctx):
     pick = [cases[0], cases[len(cases) // 3], cases[len(cases) // 2], cases[-1]]
     ctx.samples = [{"case": h, "ops": ops[:12]} for h, ops in pick]
     ctx.stats["distinct_nontrivial"] = len({tuple(ops) for _, ops in cases if len(ops) >= 3})
+    # stage 2: sat_count on real managers with reused caches
+    dd_cov, dd_samples = run_dd_stage(ctx)
+    ctx.samples = ctx.samples + dd_samples[:3]
+    ctx.stats["distinct_nontrivial"] += dd_cov["dd_distinct_nontrivial"]
     vf.write_evidence(
         ctx, "proof",
-        rule="boundary-set operand pairs x shifts x conversions x text; integer conversions of all widths; f64 rounding limits; clone shapes; random 512-bit op sequences; sat_count-like accumulations; Saturating<u64/u128>/F64 sequences; each case run in the release and in the debug profile; a case is non-trivial when it has >= 3 ops; distinct = distinct op lists",
+        rule=DD_RULE + "; stage 1 (number types): boundary-set operand pairs x shifts x conversions x text; integer conversions of all widths; f64 rounding limits; clone shapes; random 512-bit op sequences; sat_count-like accumulations; Saturating<u64/u128>/F64 sequences; each case run in the release and in the debug profile; a case is non-trivial when it has >= 3 ops; distinct = distinct op lists",
         checker_cmd="make -C coq Props/C12.vo (coqc 8.16.1) + Print Assumptions audit; ./check C12",
-        extra_cov={"cases_ok": ok, "cases_bad": len(bad), "cases_ok_debug_profile": okd, "cases_bad_debug_profile": len(badd),
-                   "tier": ctx.tier},
+        extra_cov=dict({"cases_ok": ok, "cases_bad": len(bad), "cases_ok_debug_profile": okd, "cases_bad_debug_profile": len(badd),
+                        "tier": ctx.tier}, **dd_cov),
         assumptions=[
             "Display's decimal digits are produced by dashu_int::UBig (not modelled; compared with Zarith's decimal text on every run); Display prints `?` for exponents above 2^40 (limit in the code)",
             "additions whose operands' exponents differ by more than 2^16 and text of numbers with exponent above 2^16 are not executed (the result would need that many bits / characters); the theorems cover them",
@@ -95,8 +363,12 @@ def run(ctx):
 
 
 def replay(ctx, path):
-    binp, dbgp, drv = build(ctx)
     r = json.load(open(path))
+    hdr = r.get("case_header", "")
+    if " kind=" in hdr and hdr.split(" kind=")[1].split()[0] not in ddcommon.NON_DD_KINDS:
+        # a case of the DD stage
+        return ddcommon.replay_dd(ctx, path)
+    binp, dbgp, drv = build(ctx)
     f = os.path.join(ctx.workdir, "replay.txt")
     vf.write_cases(f, [(r["case_header"], r["ops"])])
     b = dbgp if r.get("profile") == "debug" else binp
